@@ -874,8 +874,10 @@ pub enum Init {
 pub struct AigerDoc {
     pub binary: bool,
     pub m: u64,
-    /// ascii: input literals; binary: the literals 2,4,..,2I (implicit in the file)
+    /// ascii: input literals; binary: empty (the inputs are the literals 2,4,..,2I, implicit in the file)
     pub inputs: Vec<u64>,
+    /// number of inputs (binary documents may declare huge counts without any per-input data)
+    pub n_inputs: u64,
     /// (state literal, next-state literal, init); binary: state literals are implicit
     pub latches: Vec<(u64, u64, Init)>,
     pub outputs: Vec<u64>,
@@ -928,7 +930,11 @@ pub fn gen_aiger(rng: &mut Rng, binary: bool, lt: u8, size: usize) -> AigerDoc {
         v.min(cap)
     };
     let mut budget = max_m;
-    let i = cnt(rng, budget);
+    let mut i = cnt(rng, budget);
+    if binary && lt >= 3 && rng.chance(1, 4) {
+        // huge input count: makes delta codes of every length up to 10 bytes without per-input data
+        i = (1u64 << (6 + rng.below(57))).min(max_m - 8) + rng.below(3);
+    }
     budget -= i;
     let l = cnt(rng, budget);
     budget -= l;
@@ -953,7 +959,8 @@ pub fn gen_aiger(rng: &mut Rng, binary: bool, lt: u8, size: usize) -> AigerDoc {
     };
     // variable assignment
     let vars: Vec<u64> = if binary {
-        (1..=i + l + a).collect()
+        // position = variable: inputs 1..=i (not materialised), then latches, then gates
+        (i + 1..=i + l + a).collect()
     } else {
         // a random injection of i+l+a definitions into 1..=m
         let mut v: Vec<u64> = if m <= 4096 {
@@ -985,10 +992,15 @@ pub fn gen_aiger(rng: &mut Rng, binary: bool, lt: u8, size: usize) -> AigerDoc {
             _ => rng.range(0, 2 * m + 1),
         }
     };
-    let inputs: Vec<u64> = vars[..i as usize].iter().map(|v| 2 * v).collect();
+    let inputs: Vec<u64> = if binary {
+        vec![]
+    } else {
+        vars[..i as usize].iter().map(|v| 2 * v).collect()
+    };
+    let voff = if binary { 0 } else { i as usize };
     let mut latches = vec![];
     for k in 0..l as usize {
-        let st = 2 * vars[i as usize + k];
+        let st = 2 * vars[voff + k];
         let init = match rng.below(4) {
             0 => Init::ZeroOmitted,
             1 => Init::ZeroExplicit,
@@ -999,12 +1011,19 @@ pub fn gen_aiger(rng: &mut Rng, binary: bool, lt: u8, size: usize) -> AigerDoc {
     }
     let mut ands = vec![];
     for k in 0..a as usize {
-        let out = 2 * vars[(i + l) as usize + k];
+        let out = 2 * vars[voff + l as usize + k];
         if binary {
             // inputs below the output, larger first
             let x = rng.below(out);
             let y = rng.below(x + 1);
-            let (x, y) = match rng.below(6) {
+            let (x, y) = match rng.below(8) {
+                6 | 7 => {
+                    // deltas of every 7-bit length
+                    let bits = 64 - out.leading_zeros() as u64;
+                    let x = out - (1u64 << rng.below(bits)).min(out);
+                    let y = x - (1u64 << rng.below(64)).min(x);
+                    (x, y)
+                }
                 0 => (out - 1, out - 1),
                 1 => (out - 1, 0),
                 2 => (1, 0),
@@ -1090,6 +1109,7 @@ pub fn gen_aiger(rng: &mut Rng, binary: bool, lt: u8, size: usize) -> AigerDoc {
         binary,
         m,
         inputs,
+        n_inputs: i,
         latches,
         outputs,
         bad,
@@ -1121,7 +1141,7 @@ impl AigerDoc {
     pub fn header_numbers(&self) -> [u64; 9] {
         [
             self.m,
-            self.inputs.len() as u64,
+            self.n_inputs,
             self.latches.len() as u64,
             self.outputs.len() as u64,
             self.ands.len() as u64,
